@@ -2,23 +2,49 @@ from campaigns_util import B
 
 SPEC = {
     "pkg": "props/c07", "level": "exploration",
-    "rule": ("rapid shape generators per column type (constant, constant delta, small/large deltas, int64 extremes; floats: same, runs, "
+    "rule": ("column blocks: rapid shape generators per column type (constant, constant delta, small/large deltas, int64 extremes; floats: same, runs, "
              "few decimals, integers, NaN payloads, +-Inf, -0, subnormals; strings: empty, repetitive, incompressible, long) -> encode -> decode "
-             "must be bit-identical; a case is non-trivial when it has >= 2 values; distinct = hash of (shape, encoder mode byte, values)"),
-    "assumptions": ["exported codec entry points are the ones the engine calls (CoderContext reuse as in the column builder)"],
+             "must be bit-identical; non-trivial = >= 2 values; distinct = hash of (shape, encoder mode byte, values). "
+             "record_codec: records of 0..300 rows, 1..6 columns of all four types, null patterns none/all/alternating/random/sparse/dense/blocks, "
+             "whole or sliced (aligned/unaligned), decoded into a fresh or a reused record: schema, every value, every null flag; non-trivial = >= 2 rows. "
+             "row_batch: 1..12 rows parsed from generated line protocol by the package's parser or built directly (NaN/Inf, int64 extremes), shaped as the "
+             "coordinator does (name with version, sorted tags/fields, shard key, index options), decoded into fresh or reused receiver pools (WAL-replay and "
+             "store-request styles): all row attributes bitwise; every strict prefix must give an error, a (counted) panic or a true prefix of the rows; "
+             "every case is non-trivial (>= 1 row, all prefixes tried or sampled for long batches). "
+             "data_file: 1..40 series of 1..600 rows written with MsBuilder at 1..1000 rows per segment under each chunk-meta compression mode, read through the "
+             "builder's file object and after reopening: meta index, chunk metas (plain, projected lookup by id, both chunk-meta codecs), every segment of every "
+             "column ascending and descending, segment/chunk/file time ranges, id range, bloom filter, pre-aggregated count/sum/min/max with times against values "
+             "recomputed from the generated record; non-trivial = >= 2 segments in the file"),
+    "assumptions": ["exported codec entry points are the ones the engine calls (CoderContext reuse as in the column builder)",
+                    "records handed to MsBuilder.WriteData are sorted by time with unique timestamps and ascending series ids (what a flush produces)",
+                    "column segment encode/decode (ColumnBuilder.EncodeColumn / decodeColumnData) is not drivable from outside the package on its own and is "
+                    "covered through the whole-file round trip",
+                    "a panic of FastUnmarshalMultiRows on a truncated batch is counted (class prefix_panic, sites in notes) but not failed: in the WAL path a "
+                    "truncated record is caught earlier by the snappy frame"],
     "campaigns": [
-        {"name": "int_block", "run": "^TestIntBlock$", "quick": B(3000, 2), "thorough": B(60000, 3, 3000)},
-        {"name": "time_block", "run": "^TestTimeBlock$", "quick": B(3000, 2), "thorough": B(60000, 3, 3000)},
-        {"name": "float_block", "run": "^TestFloatBlock$", "quick": B(3000, 2), "thorough": B(60000, 3, 3000)},
+        {"name": "int_block", "run": "^TestIntBlock$", "quick": B(3000, 2), "thorough": B(90000, 2, 3000)},
+        {"name": "time_block", "run": "^TestTimeBlock$", "quick": B(3000, 2), "thorough": B(90000, 2, 3000)},
+        {"name": "float_block", "run": "^TestFloatBlock$", "quick": B(3000, 2), "thorough": B(90000, 2, 3000)},
         {"name": "bool_block", "run": "^TestBoolBlock$", "quick": B(2000, 1), "thorough": B(30000, 1, 3000)},
-        {"name": "string_block", "run": "^TestStringBlock$", "quick": B(2000, 2), "thorough": B(30000, 3, 3000)},
+        {"name": "string_block", "run": "^TestStringBlock$", "quick": B(2000, 2), "thorough": B(45000, 2, 3000)},
+        {"name": "record_codec", "run": "^TestRecordCodec$", "quick": B(4000, 1), "thorough": B(120000, 1, 3000)},
+        {"name": "row_batch", "run": "^TestRowBatch$", "quick": B(1200, 3), "thorough": B(30000, 3, 3000)},
+        {"name": "data_file", "run": "^TestDataFile$", "quick": B(1200, 3), "thorough": B(25000, 3, 3000)},
+    ],
+    "fuzz": [
+        {"target": "FuzzFloatBlock", "seconds": 60},
+        {"target": "FuzzIntBlock", "seconds": 60},
+        {"target": "FuzzStringBlock", "seconds": 60},
+        {"target": "FuzzRowBatch", "seconds": 60},
     ],
 }
 
 META = {
     "engine": "lib-rapid",
-    "technique": "property-based round-trip testing (rapid shape generators per encoder branch; native go fuzz in thorough)",
-    "text": ("Generated columns/records/row batches are encoded and decoded through the exported codec entry points and must come back bit-identical; "
-             "encoder-mode coverage is measured. Exploration: finds counterexamples, never proves absence."),
-    "note": "Trusts Go's math.Float64bits comparison and the harness' own structural comparison; whole-file and WAL-frame parts are covered to the extent the evidence lists.",
+    "technique": "property-based round-trip testing (rapid shape generators per encoder branch; whole-file and row-batch round trips; native go fuzz in thorough)",
+    "text": ("Generated columns/records/row batches/data files are encoded and decoded through the exported codec entry points and must come back bit-identical "
+             "(values, nulls, order, time ranges, statistics); truncated row batches must never decode into other rows; encoder-mode and shape coverage is "
+             "measured. Exploration: finds counterexamples, never proves absence."),
+    "note": ("Trusts Go's math.Float64bits comparison and the harness' own structural comparison and recomputation of the statistics (sequential float sum, first "
+             "occurrence of the extreme). Known-finding classes are left out of the generated run and listed under excluded_by_construction; each has a replay."),
 }
